@@ -23,6 +23,8 @@ namespace Fv.Cache.Conc
 structure Entry where
   val : Nat
   cost : Nat
+  exp : Nat := 0      -- TTL deadline (virtual nanoseconds); 0 = none
+  la : Nat := 0       -- last-accessed time (meaningful when a TTI is configured)
 deriving Repr, DecidableEq
 
 inductive Reason where
@@ -37,8 +39,9 @@ structure Note where
 deriving Repr, DecidableEq
 
 inductive Op where
-  | get (k : Nat)                  -- get / fetch / peek: one read-lock section
-  | insert (k v c : Nat)
+  | get (k : Nat)                  -- get / fetch: one read-lock section, refreshes the idle time on a hit
+  | peek (k : Nat)                 -- peek: one read-lock section, no refresh
+  | insert (k v c : Nat) (ttl : Option Nat)   -- insert / insert_with_ttl (per-insert TTL)
   | remove (k : Nat)               -- remove / invalidate
   | compute (k d : Nat)            -- compute(|v| *v += d): loops on Fail
   | tryCompute (k d : Nat)
@@ -53,6 +56,7 @@ inductive HEv where
   | inv (t : Nat) (op : Op)
   | ret (t : Nat) (r : Option Nat)
   | rd (t k : Nat) (r : Option Nat)
+  | rdExp (t k : Nat)                -- read found an expired binding and returned none
   | wr (t k v : Nat)
   | rm (t k : Nat) (r : Option Nat)
   | upd (t k old d : Nat)
@@ -75,8 +79,8 @@ deriving Repr, DecidableEq
 inductive PC where
   | idle
   | done (r : Option Nat)
-  | rd (k : Nat)
-  | ins (k v c : Nat)                 -- about to take the shard write lock
+  | rd (k : Nat) (peek : Bool)
+  | ins (k v c exp la : Nat)          -- entry built (clock read at the call); about to take the shard write lock
   | insSub (k c old : Nat)            -- overwrote: about to fetch_sub(old cost)
   | insEv (k c : Nat)                 -- about to push Write(k, c) on the shard's event buffer
   | insAdd (k c : Nat)                -- about to fetch_add(c)
@@ -98,6 +102,7 @@ inductive PC where
   | mNote (m : MCtx) (ws : List (Nat × Nat)) (notes : List Note)
   | mTtl (m : MCtx)
   | mTtlMap (m : MCtx) (expired : List Nat)
+  | mTti (m : MCtx)                   -- about to run cleanup_tti_for_shard
   | mCapLoad (m : MCtx)
   | mCapEvict (m : MCtx) (toFree : Nat)
   | mCapMap (m : MCtx) (victims : List Nat) (released : Nat)
@@ -111,10 +116,14 @@ structure Cfg where
   capacity : Nat
   evCap : Nat := 512        -- ACCESS_EVENT_CHANNEL_BUFFER
   coopLimit : Nat := 16     -- COOPERATIVE_MAINTENANCE_DRAIN_LIMIT
+  ttl : Nat := 0            -- global time_to_live in virtual ns; 0 = none
+  tti : Nat := 0            -- global time_to_idle; 0 = none
+  track : Bool := true      -- some policy uses access events (reads go through the access batcher)
 deriving Repr, DecidableEq
 
 structure State where
   map : Nat → Option Entry
+  now : Nat                         -- the (virtual) clock
   cur : Int                         -- current_cost, unbounded; the u64 observed is `obs`
   events : Nat → List (Nat × Nat)   -- per shard write-event buffer
   mlock : Nat → Option Nat          -- per shard maintenance_lock holder
@@ -128,7 +137,7 @@ structure State where
   dirty : Bool                      -- ghost: some step changed `drift`
 
 def init : State :=
-  { map := fun _ => none, cur := 0, events := fun _ => [], mlock := fun _ => none,
+  { map := fun _ => none, now := 0, cur := 0, events := fun _ => [], mlock := fun _ => none,
     pc := fun _ => .idle, notifs := [], nextRid := 0, removed := [], hist := [], dom := [],
     drift := 0, dirty := false }
 
@@ -191,9 +200,21 @@ def nextAdmit (m : MCtx) (ws : List (Nat × Nat)) : PC :=
   match ws with | [] => afterWrites m | _ :: _ => .mAdmit m ws
 def startDrain (m : MCtx) (limit : Nat) : PC := if limit = 0 then nextAdmit m [] else .mDrain m limit []
 
-def startPC : Op → PC
-  | .get k => .rd k
-  | .insert k v c => .ins k v c
+/-- `is_expired`: TTL deadline reached, or idle for the time-to-idle -/
+def expired (c : Cfg) (now : Nat) (e : Entry) : Bool :=
+  (decide (0 < e.exp) && decide (e.exp ≤ now)) || (decide (0 < c.tti) && decide (e.la + c.tti ≤ now))
+
+/-- deadline of an entry created at time `now` (`CacheEntry::new` / `new_with_custom_expiry`) -/
+def deadline (c : Cfg) (now : Nat) (ttl : Option Nat) : Nat :=
+  match ttl with
+  | some d => now + d
+  | none => if c.ttl = 0 then 0 else now + c.ttl
+
+/-- first program counter of a call; `insert` builds its entry (reads the clock) before any lock -/
+def startPC (c : Cfg) (now : Nat) : Op → PC
+  | .get k => .rd k false
+  | .peek k => .rd k true
+  | .insert k v co ttl => .ins k v co (deadline c now ttl) (if c.tti = 0 then 0 else now)
   | .remove k => .rm k
   | .compute k d => .cmp k d true
   | .tryCompute k d => .cmp k d false
@@ -203,6 +224,7 @@ def startPC : Op → PC
 
 inductive Label where
   | call (op : Op)
+  | advance (d : Nat)              -- environment: the clock advances
   | read
   | insMap | insSub | insEv | insAdd | coopSkip | coopLock
   | rmMap | rmPol | rmSub | rmNote (sent : Bool)
@@ -210,7 +232,7 @@ inductive Label where
   | oiMap | oiEv | oiAdd
   | clear
   | mLock | recv | admit (d : Decision) | victim | evSub | evNote (sent : Bool)
-  | ttlAdvance (expired : List Nat) | ttlMap (sent : Bool)
+  | ttlAdvance (expired : List Nat) | ttlMap (sent : Bool) | ttiMap (victims : List Nat) (sent : Bool)
   | capLoad | capEvict (victims : List Nat) (released : Nat) | capMap (sent : Bool) | capSub
   | unlock
 deriving Repr, DecidableEq
@@ -218,22 +240,31 @@ deriving Repr, DecidableEq
 def stepCall (c : Cfg) (s : State) (t : Nat) (op : Op) : Option State :=
   if t < c.nThreads then
     match s.pc t with
-    | .idle => some { s with pc := upd s.pc t (startPC op), hist := s.hist ++ [.inv t op] }
-    | .done _ => some { s with pc := upd s.pc t (startPC op), hist := s.hist ++ [.inv t op] }
+    | .idle => some { s with pc := upd s.pc t (startPC c s.now op), hist := s.hist ++ [.inv t op] }
+    | .done _ => some { s with pc := upd s.pc t (startPC c s.now op), hist := s.hist ++ [.inv t op] }
     | _ => none
   else none
 
-def stepRead (s : State) (t : Nat) : Option State :=
+/-- get / fetch / peek: ONE read-lock section; the clock is read inside it (`is_expired`), and a hit
+of get / fetch refreshes the idle time (`update_last_accessed`, an atomic store under the read lock). -/
+def stepRead (c : Cfg) (s : State) (t : Nat) : Option State :=
   match s.pc t with
-  | .rd k =>
-    let r := (s.map k).map (·.val)
-    some { s with pc := upd s.pc t (.done r), hist := s.hist ++ [.rd t k r, .ret t r] }
+  | .rd k peek =>
+    match s.map k with
+    | none => some { s with pc := upd s.pc t (.done none), hist := s.hist ++ [.rd t k none, .ret t none] }
+    | some e =>
+      if expired c s.now e then
+        some { s with pc := upd s.pc t (.done none), hist := s.hist ++ [.rdExp t k, .ret t none] }
+      else
+        some { s with map := upd s.map k (some (if peek || c.tti = 0 then e else { e with la := s.now })),
+                      pc := upd s.pc t (.done (some e.val)),
+                      hist := s.hist ++ [.rd t k (some e.val), .ret t (some e.val)] }
   | _ => none
 
 def stepInsMap (s : State) (t : Nat) : Option State :=
   match s.pc t with
-  | .ins k v c =>
-    some { s with map := upd s.map k (some ⟨v, c⟩), dom := addDom s.dom k,
+  | .ins k v c ex la =>
+    some { s with map := upd s.map k (some ⟨v, c, ex, la⟩), dom := addDom s.dom k,
                   hist := s.hist ++ [.wr t k v],
                   pc := upd s.pc t (match s.map k with | some e => .insSub k c e.cost | none => .insEv k c) }
   | _ => none
@@ -310,19 +341,20 @@ def stepCompute (s : State) (t : Nat) (fail : Bool) : Option State :=
         if loop then some s
         else some { s with pc := upd s.pc t (.done (some 0)), hist := s.hist ++ [.ret t (some 0)] }
       else
-        some { s with map := upd s.map k (some ⟨e.val + d, e.cost⟩),
+        some { s with map := upd s.map k (some { e with val := e.val + d }),
                       pc := upd s.pc t (.done (some 1)),
                       hist := s.hist ++ [.upd t k e.val d, .ret t (some 1)] }
   | _ => none
 
-def stepOiMap (s : State) (t : Nat) : Option State :=
+def stepOiMap (c : Cfg) (s : State) (t : Nat) : Option State :=
   match s.pc t with
-  | .oi k v c =>
+  | .oi k v co =>
     match s.map k with
     | some e => some { s with pc := upd s.pc t (.done (some e.val)),
                               hist := s.hist ++ [.oiOcc t k e.val, .ret t (some e.val)] }
-    | none => some { s with map := upd s.map k (some ⟨v, c⟩), dom := addDom s.dom k,
-                            hist := s.hist ++ [.oiIns t k v], pc := upd s.pc t (.oiEv k v c) }
+    | none => some { s with map := upd s.map k (some ⟨v, co, deadline c s.now none, if c.tti = 0 then 0 else s.now⟩),
+                            dom := addDom s.dom k,
+                            hist := s.hist ++ [.oiIns t k v], pc := upd s.pc t (.oiEv k v co) }
   | _ => none
 
 def stepOiEv (c : Cfg) (s : State) (t : Nat) : Option State :=
@@ -410,7 +442,7 @@ def stepTtlAdvance (s : State) (t : Nat) (expired : List Nat) : Option State :=
   match s.pc t with
   | .mTtl m =>
     match expired with
-    | [] => some { s with pc := upd s.pc t (.mCapLoad m) }
+    | [] => some { s with pc := upd s.pc t (.mTti m) }
     | _ :: _ => some { s with pc := upd s.pc t (.mTtlMap m expired) }
   | _ => none
 
@@ -423,7 +455,26 @@ def stepTtlMap (c : Cfg) (s : State) (t : Nat) (sent : Bool) : Option State :=
     let notes := mkNotes s.nextRid .expired p.2
     some { s with map := p.1, cur := s.cur - removedCost p.2, nextRid := s.nextRid + p.2.length,
                   removed := s.removed ++ notes, notifs := if sent then s.notifs ++ notes else s.notifs,
-                  hist := s.hist ++ forgetEvs t p.2, pc := upd s.pc t (.mCapLoad m) }
+                  hist := s.hist ++ forgetEvs t p.2, pc := upd s.pc t (.mTti m) }
+  | _ => none
+
+/-- the keys of `vs` whose resident entry is expired now -/
+def expiredOf (c : Cfg) (s : State) (vs : List Nat) : List Nat :=
+  vs.filter (fun k => match s.map k with | some e => expired c s.now e | none => false)
+
+/-- `cleanup_tti_for_shard`: nothing without a TTI; else one write-lock section that samples entries,
+and removes (subtracting cost and notifying inside the section) those that are expired. `victims` is
+the sample in iteration order (oracle). -/
+def stepTtiMap (c : Cfg) (s : State) (t : Nat) (victims : List Nat) (sent : Bool) : Option State :=
+  match s.pc t with
+  | .mTti m =>
+    if c.tti = 0 then some { s with pc := upd s.pc t (.mCapLoad m) }
+    else
+      let p := removeKeys c.nShards m.sh s.map (expiredOf c s victims)
+      let notes := mkNotes s.nextRid .expired p.2
+      some { s with map := p.1, cur := s.cur - removedCost p.2, nextRid := s.nextRid + p.2.length,
+                    removed := s.removed ++ notes, notifs := if sent then s.notifs ++ notes else s.notifs,
+                    hist := s.hist ++ forgetEvs t p.2, pc := upd s.pc t (.mCapLoad m) }
   | _ => none
 
 def stepCapLoad (c : Cfg) (s : State) (t : Nat) : Option State :=
@@ -468,7 +519,8 @@ def stepUnlock (s : State) (t : Nat) : Option State :=
 
 def step (c : Cfg) (s : State) (t : Nat) : Label → Option State
   | .call op => stepCall c s t op
-  | .read => stepRead s t
+  | .advance d => some { s with now := s.now + d }
+  | .read => stepRead c s t
   | .insMap => stepInsMap s t
   | .insSub => stepInsSub s t
   | .insEv => stepInsEv c s t
@@ -480,7 +532,7 @@ def step (c : Cfg) (s : State) (t : Nat) : Label → Option State
   | .rmSub => stepRmSub s t
   | .rmNote sent => stepRmNote s t sent
   | .compute fail => stepCompute s t fail
-  | .oiMap => stepOiMap s t
+  | .oiMap => stepOiMap c s t
   | .oiEv => stepOiEv c s t
   | .oiAdd => stepOiAdd s t
   | .clear => stepClear s t
@@ -492,6 +544,7 @@ def step (c : Cfg) (s : State) (t : Nat) : Label → Option State
   | .evNote sent => stepEvNote s t sent
   | .ttlAdvance e => stepTtlAdvance s t e
   | .ttlMap sent => stepTtlMap c s t sent
+  | .ttiMap v sent => stepTtiMap c s t v sent
   | .capLoad => stepCapLoad c s t
   | .capEvict v r => stepCapEvict s t v r
   | .capMap sent => stepCapMap c s t sent
@@ -516,6 +569,67 @@ def Quiescent (c : Cfg) (s : State) : Prop := ∀ t, t < c.nThreads → isRest (
 
 instance (c : Cfg) (s : State) : Decidable (Quiescent c s) := by unfold Quiescent; exact inferInstance
 
+
+/-! ### Footprint: the lock acquisitions and clock reads each step performs, in program order
+
+This is the "one step = one critical section" table the tie checks: the real code, instrumented at
+every `HybridRwLock` / `HybridMutex` acquisition and at every clock read, must perform during a step
+EXACTLY these events in this order. For a `call` the events are the lock-free prefix of the operation
+(building the entry), observed before the thread's next acquisition. -/
+
+inductive Acc where
+  | shard (i : Nat) (w : Bool)       -- blocking read (`false`) / write (`true`) lock of shard i's map
+  | maint (i : Nat) (tryl : Bool)    -- maintenance_lock of shard i: `lock` / `try_lock`
+  | batch                            -- one stripe mutex of the read-access batcher
+  | clock                            -- one read of the cache clock
+deriving Repr, DecidableEq
+
+def residentIn (c : Cfg) (s : State) (sh : Nat) : Nat :=
+  (s.dom.filter (fun k => decide (k % c.nShards = sh) && (s.map k).isSome)).length
+
+def footprint (c : Cfg) (s : State) (t : Nat) : Label → List Acc
+  | .call (.insert _ _ _ none) => [.clock]
+  | .call (.insert _ _ _ (some _)) => if c.tti = 0 then [.clock] else [.clock, .clock]
+  | .read =>
+    match s.pc t with
+    | .rd k peek =>
+      .shard (shardOf c k) false ::
+        (match s.map k with
+         | none => []
+         | some e =>
+           .clock :: (if expired c s.now e || peek then []
+                      else (if c.tti = 0 then [] else [.clock]) ++ (if c.track then [.batch] else [])))
+    | _ => []
+  | .insMap => (match s.pc t with | .ins k _ _ _ _ => [.shard (shardOf c k) true] | _ => [])
+  | .coopLock => (match s.pc t with | .insMaint k => [.maint (shardOf c k) true] | _ => [])
+  | .rmMap => (match s.pc t with | .rm k => [.shard (shardOf c k) true] | _ => [])
+  | .compute _ => (match s.pc t with | .cmp k _ _ => [.shard (shardOf c k) true] | _ => [])
+  | .oiMap =>
+    (match s.pc t with
+     | .oi k _ _ => .shard (shardOf c k) true :: (match s.map k with | none => [.clock] | some _ => [])
+     | _ => [])
+  | .clear => (List.range c.nShards).map (fun i => .shard i true)
+  | .mLock => (match s.pc t with | .mLock sh _ _ => [.maint sh false] | _ => [])
+  | .recv =>
+    (match s.pc t with
+     | .mDrain m left _ =>
+       -- the step that ends the drain loop also drains both read-batcher instances (2 × 16 stripes)
+       if (s.events m.sh).isEmpty || left ≤ 1 then List.replicate 32 .batch else []
+     | _ => [])
+  | .victim => (match s.pc t with | .mVictim _ _ (vk :: _) _ _ => [.shard (shardOf c vk) true] | _ => [])
+  | .ttlMap _ => (match s.pc t with | .mTtlMap m _ => [.shard m.sh true] | _ => [])
+  | .ttiMap _ _ =>
+    (match s.pc t with
+     | .mTti m => if c.tti = 0 then [] else .shard m.sh true :: List.replicate (min 10 (residentIn c s m.sh)) .clock
+     | _ => [])
+  | .capMap _ => (match s.pc t with | .mCapMap m _ _ => [.shard m.sh true] | _ => [])
+  | _ => []
+
+/-- `insert`'s cooperative-maintenance step may also have tried (and failed) the maintenance lock -/
+def footprintAlt (c : Cfg) (s : State) (t : Nat) : Label → Option (List Acc)
+  | .coopSkip => (match s.pc t with | .insMaint k => some [.maint (shardOf c k) true] | _ => none)
+  | _ => none
+
 /-! ### The sequential specification: a per-key register that may forget -/
 
 abbrev Reg := Nat → Option Nat
@@ -531,6 +645,7 @@ def applyEv (r : Reg) : HEv → Reg
 
 def evOk (r : Reg) : HEv → Bool
   | .rd _ k x => r k == x
+  | .rdExp _ k => (r k).isSome
   | .rm _ k x => r k == x
   | .upd _ k old _ => r k == some old
   | .nf _ k => r k == none
